@@ -8,6 +8,7 @@ import (
 	"fmt"
 	"io"
 	"net"
+	"slices"
 	"strconv"
 	"strings"
 	"sync"
@@ -239,31 +240,14 @@ func findRoute(
 			return "", log, false
 		}
 
-		// Remove selected backend from list to avoid retrying it
-		for i, backend := range tryBackends {
-			normalizedBackend, err := netutil.Parse(backend, src.RemoteAddr().Network())
-			if err != nil {
-				continue
-			}
-			normalizedAddr := normalizedBackend.String()
-			if _, port := netutil.HostPort(normalizedBackend); port == 0 {
-				normalizedAddr = net.JoinHostPort(normalizedBackend.String(), "25565")
-			}
-
-			normalizedSelected, err := netutil.Parse(backendAddr, src.RemoteAddr().Network())
-			if err != nil {
-				continue
-			}
-			selectedAddr := normalizedSelected.String()
-			if _, port := netutil.HostPort(normalizedSelected); port == 0 {
-				selectedAddr = net.JoinHostPort(normalizedSelected.String(), "25565")
-			}
-
-			if normalizedAddr == selectedAddr {
-				tryBackends = append(tryBackends[:i], tryBackends[i+1:]...)
-				break
-			}
-		}
+		// Remove the selected backend from the list so that it is not retried: every entry
+		// that names the same backend (same host ignoring case, same port with the default
+		// port applied), not just the first one. An address that does not parse is compared
+		// literally, so the list always shrinks and the attempt terminates.
+		selected := canonicalBackendAddress(backendAddr)
+		tryBackends = slices.DeleteFunc(tryBackends, func(backend string) bool {
+			return canonicalBackendAddress(backend) == selected
+		})
 
 		return backendAddr, newLog.WithValues("backendAddr", backendAddr), true
 	}
